@@ -145,6 +145,7 @@ func (s *Site) Handler() Handler {
 		if v.Nonce {
 			n := s.nonce.Add(1)
 			e.Nonce = fmt.Sprintf("nonce-%d", n)
+			e.Commit()
 			body = append([]byte(e.Nonce+"\n"), body...)
 		}
 		if v.HonorRange && status == 200 && r.Header.Get("Range") != "" && r.Method == "GET" {
@@ -179,6 +180,7 @@ func (s *Site) Handler() Handler {
 			}
 		}
 		e.Status = status
+		e.Commit()
 		if !v.Chunked {
 			h.Set("Content-Length", strconv.Itoa(len(body)))
 		}
